@@ -1,4 +1,6 @@
 --------------------------- MODULE MC_ClusterScen ---------------------------
 EXTENDS ClusterScen, Json, IOUtils
+IncludesQuick == {<<>>, <<"n2", "n1">>}
+IncludesThorough == {<<>>, <<"n1">>, <<"n2", "n1">>}
 Emit == q = 0 => PrintT(<<"INPUT", ToJson(sc)>>)
 =============================================================================
